@@ -180,6 +180,27 @@ Theorem copy_reads_inside :
 Proof. exact copy_reads_inside_proof. Qed.
 Print Assumptions copy_reads_inside.
 
+(* Overlapping roots (srcRoot = dstRoot, or dstRoot below srcRoot): the tree below srcRoot changes
+   during the copy, and copy_reads_inside in its present form does not apply.  What is static whatever
+   the roots: a directory that existed before and is reached from any directory a through real
+   directories after the copy (any state of the invariant) was reached from a by the same names
+   initially — the copier never links or moves an old directory, and the directories it creates
+   contain no old ones.  So an old directory found below srcRoot was below srcRoot from the start.
+   (The guarantee for the reads themselves, "of the inodes that existed before, the copier reads only
+   those at or below srcRoot", is checked on every run of kind 1404, overlapping roots included; its
+   proof for overlapping roots is listed as unproved in props/C14.json.) *)
+Theorem copy_old_dirs_static :
+  forall fuel c o osl scs src dcs dst matches f0 dr sr s' res,
+    fs_wf f0 ->
+    forallb name_ok dcs = true -> chain f0 (c_root c) dcs dr -> (length dcs < rfuel)%nat ->
+    forallb name_ok scs = true -> chain f0 (c_root c) scs sr -> (length scs < rfuel)%nat ->
+    (scs = dcs \/ ~ inside_dir f0 dr sr) ->
+    has_nul src = false -> (forall l, matches = Some l -> forallb (fun m => negb (has_nul m)) l = true) ->
+    copy_top fuel c o osl (render scs) src (render dcs) dst matches (cst_init f0) = (s', res) ->
+    forall a ns d, chain (s_fs s') a ns d -> (d < f_next f0)%N -> chain f0 a ns d.
+Proof. exact copy_old_dirs_static_proof. Qed.
+Print Assumptions copy_old_dirs_static.
+
 (* A symlink met at a target name "<dstRoot>/cs/x" (cs real directories) is never traversed:
    ensureEmptyFileTarget (non-directory source) unlinks it — the name is gone, the link inode and
    whatever it points to untouched — and copyDirectoryOnly (directory source) reports the conflict
